@@ -6,15 +6,15 @@ package cast
 pred castIsInt(v) := hasType(v, int) || hasType(v, int8) || hasType(v, int16) || hasType(v, int32) || hasType(v, int64) || hasType(v, uint) || hasType(v, uint8) || hasType(v, uint16) || hasType(v, uint32) || hasType(v, uint64)
 
 extern ToIntE
-  props C06
+  props C06 C03
   option pure
 
 extern ToInt64E
-  props C06
+  props C06 C03
   option pure
 
 extern ToStringE
-  props C06
+  props C06 C03
   option pure
 
 func ToFloat64E
